@@ -22,6 +22,21 @@ Example C08_rollback_restores_nonvacuous :
              /\ s_kv (st s') = [(1, 7)].
 Proof. eexists. split; vm_compute; reflexivity. Qed.
 
+(* The same by id (ROLLBACK TO '<uuid>'): the state seen by exactly that CHECKPOINT statement comes back,
+   also when later checkpoints re-use its name. *)
+Theorem C08_rollback_by_id_restores : forall c ops k s',
+  rollback_id c (run c init ops) k = Some s' ->
+  exists i name now,
+    nth_error ops i = Some (OCheckpoint name now)
+    /\ k = length (images (run c init (firstn i ops)))
+    /\ (forall key, aget (s_kv (st s')) key = aget (s_kv (st (run c init (firstn i ops)))) key)
+    /\ (restore_slabs c = true -> s_rel (st s') = s_rel (st (run c init (firstn i ops)))).
+Proof. exact rollback_id_restores. Qed.
+Example C08_rollback_by_id_nonvacuous :
+  exists s', rollback_id faithful (run faithful init [OPutKV 1 7; OCheckpoint 5 1001; OPutKV 1 8; OCheckpoint 5 1002; OPutKV 1 9]) 0 = Some s'
+             /\ s_kv (st s') = [(1, 7)].
+Proof. eexists. split; vm_compute; reflexivity. Qed.
+
 (* On the code as read (restore_from_bytes re-puts only scan("") keys; artifacts in the same store)
    the full statement is false: *)
 Theorem C08_relational_restored_refuted :
@@ -57,6 +72,7 @@ Theorem C08_retained_can_roll_back : forall c ops e,
 Proof. exact retained_can_roll_back. Qed.
 
 Print Assumptions C08_rollback_restores.
+Print Assumptions C08_rollback_by_id_restores.
 Print Assumptions C08_relational_restored_refuted.
 Print Assumptions C08_retained_rollback_refuted.
 Print Assumptions C08_retention_keeps_newest.
